@@ -1,4 +1,145 @@
-//! C03 — not built yet.
+//! C03 — a party's view reveals nothing beyond its own inputs and outputs.
+//! Oracle (search): exact enumeration of the three-party execution of small bit-typed compiled
+//! graphs over ALL values of the idealised PRF masks: for every observer and every two input
+//! vectors that agree on the observer's inputs (and on its output, if it receives one) the
+//! histograms of the observer's view must be identical.
+use crate::c02::*;
+use crate::coqfmt::*;
+use crate::exec3::*;
+use crate::export::*;
+use crate::mpcgen::*;
 use crate::out::Out;
-pub const HEADER: &str = "From CC Require Import Base.Prelude.";
-pub fn run(_tier: &str, _seed: u64, _out: &mut Out) {}
+use crate::progen::*;
+use crate::rng::Rng;
+use ciphercore_base::data_types::*;
+use ciphercore_base::data_values::Value;
+use ciphercore_base::graphs::*;
+use ciphercore_base::mpc::mpc_compiler::IOStatus;
+use serde_json::json;
+use std::collections::HashMap;
+
+pub const HEADER: &str = "From CC Require Import Base.Prelude Base.Scalar Base.Ty Base.Shape Graph.Value Graph.IR Model.Knows Model.MaskCheck.";
+
+/// bit programs over scalars: x AND y, (x AND y) XOR z, x XOR y, (x XOR y) AND z ...
+fn bit_program(kind: usize) -> Prog {
+    let ctx = create_context().unwrap();
+    let g = ctx.create_graph().unwrap();
+    let t = scalar_type(BIT);
+    let n_in = if kind == 0 || kind == 2 { 2 } else { 3 };
+    let ins: Vec<Node> = (0..n_in).map(|_| g.input(t.clone()).unwrap()).collect();
+    let o = match kind {
+        0 => ins[0].multiply(ins[1].clone()).unwrap(),
+        1 => ins[0].multiply(ins[1].clone()).unwrap().add(ins[2].clone()).unwrap(),
+        2 => ins[0].add(ins[1].clone()).unwrap(),
+        _ => ins[0].add(ins[1].clone()).unwrap().multiply(ins[2].clone()).unwrap(),
+    };
+    g.set_output_node(o).unwrap();
+    g.finalize().unwrap();
+    ctx.set_main_graph(g.clone()).unwrap();
+    ctx.finalize().unwrap();
+    Prog { ctx, g, input_types: vec![t; n_in], attempts: vec![] }
+}
+
+fn bitval(b: u8) -> Value { Value::from_scalar(b, BIT).unwrap() }
+
+/// One exact run: tape = assignment of bits to PRF cells in order of first use.
+fn run_view(c: &Compiled, p: &Prog, owners: &[IOStatus], xs: &[u8], tape: u64, observer: usize, ncells: &mut usize) -> (Vec<u8>, Option<u8>) {
+    // party inputs: real where owned / public, 0 (junk) otherwise; no Shared owners here
+    let ins: Vec<[PV; 3]> = owners.iter().zip(xs.iter()).map(|(o, x)| match o {
+        IOStatus::Public => [PV::Val(bitval(*x)), PV::Val(bitval(*x)), PV::Val(bitval(*x))],
+        IOStatus::Party(q) => { let mut a = [PV::Val(bitval(0)), PV::Val(bitval(0)), PV::Val(bitval(0))]; a[*q as usize] = PV::Val(bitval(*x)); a }
+        IOStatus::Shared => unreachable!(),
+    }).collect();
+    let mut table: HashMap<(Vec<u8>, u64), Value> = HashMap::new();
+    let mut next = 0usize;
+    let mut ideal = |k: &[u8], iv: u64, t: &Type| -> Value {
+        let key = (k.to_vec(), iv);
+        if let Some(v) = table.get(&key) { return v.clone(); }
+        let n: u64 = t.get_dimensions().iter().product();
+        let mut bits = vec![];
+        for _ in 0..n { bits.push(((tape >> next) & 1) as u8); next += 1; }
+        let v = Value::from_flattened_array(&bits, BIT).unwrap();
+        table.insert(key, v.clone());
+        v
+    };
+    // fixed, distinct seeds: the keys only serve as identities of the idealised PRF
+    let seeds = [[1u8; 16], [2u8; 16], [3u8; 16]];
+    let r = exec3_with(&c.g, &ins, seeds, Some(&mut ideal));
+    *ncells = std::cmp::max(*ncells, next);
+    // the observer's view: what it receives, plus every PRF value it computes itself
+    let mut view: Vec<u8> = vec![];
+    let bits_of = |pv: &PV, t: &Type| -> Vec<u8> { match pv.extract() { Some(v) => if t.is_scalar() { vec![v.to_u8(BIT).unwrap_or(9)] } else if t.is_array() && t.get_scalar_type() == BIT { v.to_flattened_array_u8(t.clone()).unwrap_or(vec![9]) } else { vec![] }, None => vec![8] } };
+    let nodes = c.g.get_nodes();
+    for (nid, _s, rcv, pv) in r.deliveries.iter() {
+        if *rcv as usize == observer { view.extend(bits_of(pv, &nodes[*nid as usize].get_type().unwrap())); view.push(7); }
+    }
+    for n in nodes.iter() {
+        if let Operation::PRF(_, t) = n.get_operation() { view.extend(bits_of(&r.vals[observer][n.get_id() as usize], &t)); }
+    }
+    let _ = p;
+    let oid = c.g.get_output_node().unwrap().get_id() as usize;
+    let outv = r.vals[observer][oid].extract().and_then(|v| v.to_u8(BIT).ok());
+    (view, outv)
+}
+
+pub fn enumerate_views(kind: usize, owners: &[IOStatus], outs: &[IOStatus], out: &mut Out, max_cells: usize) {
+    let p = bit_program(kind);
+    let (mname, mode) = inline_modes()[0].clone();
+    let desc0 = json!({"program": kind, "owners": owners.iter().map(status_str).collect::<Vec<_>>(), "outputs": outs.iter().map(status_str).collect::<Vec<_>>(), "inline": mname});
+    let c = match compile(&p, owners, outs, mode) { Outcome::Ok(c) => c, _ => { out.stat("compile:notOk"); return; } };
+    let n_in = owners.len();
+    // dry run to count the cells
+    let mut ncells = 0usize;
+    run_view(&c, &p, owners, &vec![0u8; n_in], 0, 0, &mut ncells);
+    out.stat(&format!("cells:{}", ncells));
+    if ncells > max_cells { out.stat("enumeration-skipped-too-many-cells"); return; }
+    let ntapes = 1u64 << ncells;
+    out.stat_n("exact_executions", ntapes * (1u64 << n_in) * 3);
+    // histograms[observer][inputs] : view -> count
+    for observer in 0..3usize {
+        let mut hists: Vec<HashMap<Vec<u8>, u64>> = vec![];
+        let mut outsv: Vec<Option<u8>> = vec![];
+        for xm in 0..(1u32 << n_in) {
+            let xs: Vec<u8> = (0..n_in).map(|j| ((xm >> j) & 1) as u8).collect();
+            let mut h = HashMap::new();
+            let mut ov = None;
+            for tape in 0..ntapes {
+                let mut nc = 0;
+                let (v, o) = run_view(&c, &p, owners, &xs, tape, observer, &mut nc);
+                *h.entry(v).or_insert(0) += 1;
+                ov = o;
+            }
+            hists.push(h);
+            outsv.push(ov);
+        }
+        let is_out = outs.contains(&IOStatus::Party(observer as u64));
+        for a in 0..(1usize << n_in) {
+            for b in (a + 1)..(1usize << n_in) {
+                // same inputs of the observer (owned or public)
+                let same_in = (0..n_in).all(|j| match &owners[j] { IOStatus::Party(q) if *q as usize == observer => (a >> j) & 1 == (b >> j) & 1, IOStatus::Public => (a >> j) & 1 == (b >> j) & 1, _ => true });
+                if !same_in { continue; }
+                if is_out && outsv[a] != outsv[b] { continue; }
+                if hists[a] != hists[b] {
+                    let desc = json!({"config": desc0, "observer": observer, "inputs_a": a, "inputs_b": b, "cells": ncells});
+                    out.violation("view-distribution-depends-on-other-inputs", desc, format!("observer {}: exact view histograms differ for input vectors {:b} and {:b} over all {} tapes", observer, a, b, ntapes));
+                } else { out.oracle_ok(); }
+            }
+        }
+    }
+}
+
+pub fn run(tier: &str, _seed: u64, out: &mut Out) {
+    let cfgs: Vec<(usize, Vec<IOStatus>, Vec<IOStatus>)> = vec![
+        (2, vec![IOStatus::Party(0), IOStatus::Party(1)], vec![IOStatus::Party(2)]),
+        (2, vec![IOStatus::Party(0), IOStatus::Party(1)], vec![IOStatus::Party(0)]),
+        (0, vec![IOStatus::Party(0), IOStatus::Party(1)], vec![IOStatus::Party(2)]),
+        (0, vec![IOStatus::Party(1), IOStatus::Party(2)], vec![IOStatus::Party(1)]),
+        (0, vec![IOStatus::Party(0), IOStatus::Public], vec![IOStatus::Party(1), IOStatus::Party(2)]),
+        (1, vec![IOStatus::Party(0), IOStatus::Party(1), IOStatus::Party(2)], vec![IOStatus::Party(0)]),
+        (3, vec![IOStatus::Party(0), IOStatus::Party(1), IOStatus::Party(2)], vec![]),
+    ];
+    let (take, max_cells) = match tier { "thorough" => (cfgs.len(), 18), "search" => (cfgs.len(), 20), _ => (3, 13) };
+    for (kind, owners, outs) in cfgs.into_iter().take(take) {
+        enumerate_views(kind, &owners, &outs, out, max_cells);
+    }
+}
